@@ -135,6 +135,23 @@ def replay_table(args):
 REPLAYERS = {"apply": replay_apply, "cell": replay_cell, "table": replay_table}
 
 
+def float_pairs_cell(args):
+    cell = dict(args["cell"])
+    cell["ZMq"] = tuple(cell["ZMq"])
+    with cm.fixed_nf():
+        return pairs_combiner(cell, cm.ew_params(values=args["params"]), args["params"]["Q2"], args["params"]["Z"], args["params"]["A"])
+
+
+def float_pairs_apply(args):
+    W = {int(k): v for k, v in args["W"].items()}
+    F = {int(k): v for k, v in args["F"].items()}
+    return pairs_apply([int(p) for p in args["pattern"]], W, args["Z"], args["A"], F)
+
+
+REPLAYERS["cell:pairs"] = float_pairs_cell
+REPLAYERS["apply:pairs"] = float_pairs_apply
+
+
 def run(chk, only=None):
     import yadism.coefficient_functions as cf
     from yadism.input import compatibility
